@@ -5,6 +5,20 @@ EXTENDS KdfScrypt, Json
 S(d) == Val([k |-> -1, d |-> d])     \* the small integer d
 P(e, d) == Val([k |-> e, d |-> d])   \* 2^e + d
 
+M(e, d) == [neg |-> TRUE, mag |-> P(e, d).mag]   \* -(2^e + d)
+
+\* machine-integer boundary values of a Go int (IntBits = 63), for every int parameter:
+\* MinInt, MinInt+1, MinInt/2, -2^32, -2^31, -1, 0, 1, 2, 3, MaxInt32, MaxInt32+1, 2^32, 2^62, MaxInt-1, MaxInt
+Bnd16 == {M(63, 0), M(63, -1), M(62, 0), M(32, 0), M(31, 0), S(-1), S(0), S(1), S(2), S(3),
+          P(31, -1), P(31, 0), P(32, 0), P(62, 0), P(63, -2), P(63, -1)}
+\* quick tier for r and p: both ends, the 32-bit ends, the sign change and the valid values
+Bnd8 == {M(63, 0), M(31, 0), S(-1), S(0), S(1), S(2), P(31, 0), P(63, -1)}
+BndK == {M(63, 0), S(-1), S(0), S(32), P(63, -1)}
+BndKq == {M(63, 0), S(0), S(32), P(63, -1)}
+\* the same for a 32-bit int (IntBits = 31): MinInt32, MinInt32+1, MinInt32/2, -2^16, -1 .. 3, 2^16, 2^30, MaxInt32-1, MaxInt32
+Bnd32 == {M(31, 0), M(31, -1), M(30, 0), M(16, 0), S(-1), S(0), S(1), S(2), S(3), P(16, 0), P(30, 0), P(31, -2), P(31, -1)}
+BndK32 == {M(31, 0), S(-1), S(0), S(32), P(31, -1)}
+
 SmallN == {S(-4), S(0), S(1), S(2), S(3), S(4), S(6), S(16), S(1024)}
 SmallRP == {S(i) : i \in -2..8}
 CurN == {S(2), S(16)}
